@@ -90,9 +90,8 @@ func (p Polygon) Validate() error {
 				// It's ok to access the first coord (index 0), since we've
 				// already checked to ensure that no ring is empty.
 				iStart := p.rings[i].Coordinates().GetXY(0)
-				jStart := p.rings[j].Coordinates().GetXY(0)
-				nestedFwd := relatePointToRing(iStart, p.rings[j]) == interior
-				nestedRev := relatePointToRing(jStart, p.rings[i]) == interior
+				nestedFwd := ringHasPointInsideRing(p.rings[i], p.rings[j])
+				nestedRev := ringHasPointInsideRing(p.rings[j], p.rings[i])
 				if nestedFwd || nestedRev {
 					return violateRingNested.errAtXY(iStart)
 				}
@@ -148,6 +147,24 @@ func (p Polygon) Validate() error {
 		return violateInteriorConnected.err()
 	}
 	return nil
+}
+
+// ringHasPointInsideRing checks the control points of inner in order until it
+// finds one that is not on the boundary of outer, and reports whether that
+// control point is strictly inside outer. Control points on the boundary of
+// outer (such as the point where two holes touch) are inconclusive, so they
+// are skipped rather than being treated as 'not inside'.
+func ringHasPointInsideRing(inner, outer LineString) bool {
+	seq := inner.Coordinates()
+	for i := 0; i < seq.Length(); i++ {
+		switch relatePointToRing(seq.GetXY(i), outer) {
+		case interior:
+			return true
+		case exterior:
+			return false
+		}
+	}
+	return false
 }
 
 func validateRing(r LineString) error {
